@@ -643,6 +643,70 @@ def sec_noise_models(ctx, rng, case):
     ctx.sample({"program": wit["program"][:4], "model": model_kind, "purity": round(_purity(want), 6)})
 
 
+def _psd_sqrt(m):
+    w, v = np.linalg.eigh((m + m.conj().T) / 2)
+    return (v * np.sqrt(np.clip(w, 0, None))) @ v.conj().T
+
+
+def sec_measures(ctx, rng, case):
+    """cirq.qis measures against their documented definitions: fidelity (Uhlmann), von Neumann entropy in bits,
+    entanglement fidelity <phi|(E x I)(|phi><phi|)|phi>"""
+    import cirq
+
+    kind = case % 3
+    if kind == 0:
+        dims = P.pick_dims(rng, nmax=3, qudit_p=0.3, dmax_total=12)
+        D = L.dim_of(dims)
+        forms = []
+        for _ in range(2):
+            if rng.random() < 0.5:
+                v = L.random_state(rng, D)
+                forms.append(("vector", v, np.outer(v, v.conj())))
+            else:
+                r = L.random_rho(rng, D, rank=int(rng.integers(1, D + 1)))
+                forms.append(("matrix", r, r))
+        (ka, a, ra), (kb, b, rb) = forms
+        if rng.random() < 0.15:
+            kb, b, rb = ka, a, ra
+        sq = _psd_sqrt(ra)
+        want = float(np.real(np.trace(_psd_sqrt(sq @ rb @ sq))) ** 2)
+        got = cirq.fidelity(a, b, qid_shape=tuple(dims))
+        ctx.check(abs(got - want) <= 1e-6, "measures==definition", "C09:fidelity:%s-%s" % tuple(sorted((ka, kb))),
+                  "cirq.fidelity = %.9f, Uhlmann fidelity %.9f" % (got, want), dims=dims, forms=[ka, kb])
+        ctx.check(abs(cirq.fidelity(b, a, qid_shape=tuple(dims)) - got) <= 1e-6, "measures==definition", "C09:fidelity-not-symmetric", "", dims=dims, forms=[ka, kb])
+        ctx.distinct(("fidelity", ka, kb, dims, round(want, 6)), nontrivial=1e-6 < want < 1 - 1e-6)
+    elif kind == 1:
+        dims = P.pick_dims(rng, nmax=3, qudit_p=0.3, dmax_total=12)
+        D = L.dim_of(dims)
+        if rng.random() < 0.2:
+            st = L.random_state(rng, D)
+            want = 0.0
+        else:
+            st = L.random_rho(rng, D, rank=int(rng.integers(1, D + 1)))
+            w = np.clip(np.linalg.eigvalsh(st), 0, None)
+            w = w[w > 1e-15]
+            want = float(-(w * np.log2(w)).sum())
+        got = cirq.von_neumann_entropy(st, qid_shape=tuple(dims))
+        ctx.check(abs(got - want) <= 1e-6, "measures==definition", "C09:von_neumann_entropy", "entropy %.9f, -tr(rho log2 rho) = %.9f" % (got, want), dims=dims)
+        ctx.distinct(("entropy", dims, round(want, 6)), nontrivial=want > 1e-6)
+    else:
+        specs = [sp for sp in P.pools()["c"]]
+        sp = specs[int(rng.integers(len(specs)))]
+        p = sp.sample(rng)
+        try:
+            g = sp.make(p)
+        except ValueError:
+            ctx.reject("constructor")
+            return
+        ks = sp.ref(p)
+        d = L.dim_of(sp.shape)
+        want = float(sum(abs(np.trace(k)) ** 2 for k in ks) / d ** 2)  # = <phi|(E x I)(phi)|phi> for |phi> = sum_i |ii>/sqrt(d)
+        got = cirq.entanglement_fidelity(g)
+        ctx.check(abs(got - want) <= 1e-7, "measures==definition", "C09:entanglement_fidelity:" + ("qudit" if any(x != 2 for x in sp.shape) else "qubit"),
+                  "entanglement_fidelity(%s) = %.9f, definition gives %.9f" % (sp.name, got, want), channel=sp.name, params=p, shape=sp.shape)
+        ctx.distinct(("efid", sp.name, repr(p)), nontrivial=want < 1 - 1e-6)
+
+
 SECTIONS = [
     ("dm", sec_dm, 900, 25000, 4.0),
     ("dm_measure", sec_dm_measure, 300, 8000, 1.5),
@@ -651,4 +715,5 @@ SECTIONS = [
     ("unravel", sec_unravel, 400, 10000, 3.0),
     ("noise", sec_noise, 500, 12000, 1.5),
     ("noise_models", sec_noise_models, 500, 12000, 1.5),
+    ("measures", sec_measures, 600, 12000, 0.5),
 ]
